@@ -80,6 +80,16 @@ CLAIMS = {
    note="NOT proved here (no lemma): IGMPv3 query/report/group record, DHCP, LLDP, hop-by-hop headers with more than one option, and IPv6 chains that repeat a header kind; for these kinds only safety/termination (C08), ownership (C12) and size consistency (C06/C13) are proved. Priority tags (VLAN id 0) are two known findings (the type cannot represent them). Well-formedness assumed by the lemmas is written out in the contracts (ethwf/ip4wf/ip6base: address lengths, field widths, options length = 4*IHL-20, chain consistent with next-header bytes). " + TB,
    technique="contract-based deductive verification: composite round-trip/demux lemma functions executed symbolically over the real encoders and decoders, loop unrolling with unwinding obligations, byte memories with interval reasoning, QF_AUFBV, z3/cvc5",
    design="DESIGN.md section 4 C09"),
+ "C03": dict(
+   text="Deductive proof against an independent statement of the wire formats: spec/layouts.tbl (transcribed from OpenFlow 1.3.5, nicira-ext.h and EXT-230, only the Go field names come from the library) is compiled by tools/gen_layout_contracts.py into postconditions on the real MarshalBinary of 72 kinds (every action, instruction, match-field payload, the fixed part of flow-mod, group-mod, bucket, packet-out, port-mod, multipart request, stats requests, Nicira actions and vendor bodies, bundle bodies): for ALL field values each supplied value is proved to sit at its specified offset, width and byte order, constants (type codes, vendor id, version 4) and own-length fields are as specified, pad bytes are zero (given the library-private pad storage is zero), and the facts survive the element loops (they are loop invariants of the encoders). Nested elements and list order: proved on instances - flow-mod (match field + goto-table + apply-actions{output}), group-mod (bucket{output}), packet-out (output + payload), instruction with three actions added by append and prepend, match with two fields (one masked), bucket with two actions - whose complete encodings are compared byte for byte with the layout the specification prescribes for that shape, all values symbolic.",
+   note="Bounded part (labelled bounded, not counted as proved for all shapes): placement and order of list elements and nested children is decided only for the instance shapes above (list lengths 1-3); for arbitrary lists the proofs cover the fixed part, the total length (C06/C13) and each element kind's own layout, not the k-th element's offset. Switch-originated kinds are checked on the decoder side (C04). Two known findings (port/queue stats requests use the OpenFlow 1.0 layout). " + TB,
+   technique="contract-based deductive verification: layout postconditions generated from a specification table onto the real encoders (with loop invariants), plus symbolic execution of instance lemmas, QF_AUFBV, z3/cvc5",
+   design="DESIGN.md section 4 C03"),
+ "C04": dict(
+   text="Deductive proof, decoder side of the same specification table: for 75 kinds the real UnmarshalBinary is proved, for an input array of symbolic length and content, to store in every field exactly the big-endian value found at the offset the specification assigns to it (fixed parts of every message, all action/instruction/match-payload/stats/port kinds, Nicira and bundle bodies; offsets after a variable-size child are expressed with the decoded child's size), fixed-size kinds are proved to accept every input that holds the whole element with the specified constants and length, and Parse is proved to yield the message kind named by the header's type byte for every type code it supports (error vs experimenter error by the error type). Nine known findings: port-stats, queue-stats and table-stats replies are decoded with their OpenFlow 1.0 layouts.",
+   note="Not proved: that the k-th element of a list is decoded from offset base + sizes of its predecessors for arbitrary lists (instance level only: the C05 container lemmas), the multipart-reply body dispatch by reply type, hello elements, experimenter-error layout; the packet payload of packet-in is C09's subject. Acceptance of conformant variable-size messages is proved only as 'no error path other than the documented length checks' by C07 (totality), not as a positive acceptance statement. " + TB,
+   technique="contract-based deductive verification: layout postconditions generated from a specification table onto the real decoders, dispatch postconditions on Parse, QF_AUFBV, z3/cvc5",
+   design="DESIGN.md section 4 C04"),
 }
 
 NOT_YET = {
